@@ -11,8 +11,12 @@ MCRoutes == {"plain", "symdir", "dots", "abs"}
 \* the output path occupied by an input of the run: gen_coords -c == -o, gen_params -f == -o (same spelling, via a symbolic
 \* link, via ./sub/../name); plain route only
 MCInoutBase == { [prog |-> "gen_params", on |-> {}], [prog |-> "gen_coords", on |-> {"split", "coords", "grid"}] }
-MCVariants == { [prog |-> b.prog, on |-> b.on, route |-> r, inout |-> "no"] : b \in MCBase, r \in MCRoutes }
-              \cup { [prog |-> b.prog, on |-> b.on, route |-> "plain", inout |-> k] : b \in MCInoutBase, k \in {"same", "link", "dots"} }
+MCVariants == { [prog |-> b.prog, on |-> b.on, route |-> r, inout |-> "no", dev |-> "same"] : b \in MCBase, r \in MCRoutes }
+              \cup { [prog |-> b.prog, on |-> b.on, route |-> "plain", inout |-> k, dev |-> "same"] : b \in MCInoutBase, k \in {"same", "link", "dots"} }
+              \cup { [prog |-> b.prog, on |-> b.on, route |-> "plain", inout |-> "no", dev |-> "cross"] : b \in MCBase }
+\* temp directory on another file system: fresh output, existing output, existing output + backup #.2#
+MCDevInits == { [out |-> FALSE, bk |-> {}, link |-> FALSE], [out |-> TRUE, bk |-> {}, link |-> FALSE],
+                [out |-> TRUE, bk |-> {2}, link |-> FALSE] }
 MCInoutInits == { [out |-> TRUE, bk |-> {}, link |-> FALSE], [out |-> TRUE, bk |-> {1}, link |-> FALSE],
                   [out |-> TRUE, bk |-> {2}, link |-> FALSE] }
 \* non-plain spellings of the output path: fresh output, existing output, existing output + one backup
@@ -20,11 +24,13 @@ MCRouteInits == { [out |-> FALSE, bk |-> {}, link |-> FALSE], [out |-> TRUE, bk 
                   [out |-> TRUE, bk |-> {1}, link |-> FALSE] }
 MCInits == [out : BOOLEAN, bk : SUBSET {1, 2, 3}, link : {FALSE}]
            \cup [out : {TRUE}, bk : {{}, {1}, {2}, {1, 3}}, link : {TRUE}]
+\* sensitivity: the deviation DevMoveBeforeClose must NOT refute SuccessState when everything is on one file system
+MCSameDev == {v \in MCVariants : v.dev = "same"}
 MCTargets1 == {"out"}
 MCNone == {}
 (* history extension: deferred-writer programs, first run fails (mostly inside serialisation), second run in the same process *)
-HVariants == { [prog |-> "gen_params", on |-> {}, route |-> "plain", inout |-> "no"],
-               [prog |-> "gen_coords", on |-> {}, route |-> "plain", inout |-> "no"] }
+HVariants == { [prog |-> "gen_params", on |-> {}, route |-> "plain", inout |-> "no", dev |-> "same"],
+               [prog |-> "gen_coords", on |-> {}, route |-> "plain", inout |-> "no", dev |-> "same"] }
 HInits == { [out |-> FALSE, bk |-> {}, link |-> FALSE], [out |-> TRUE, bk |-> {}, link |-> FALSE],
             [out |-> TRUE, bk |-> {1}, link |-> FALSE] }
 HCrash1 == { [stage |-> "links", when |-> "before"], [stage |-> "backmap", when |-> "after"],
